@@ -2,7 +2,7 @@
    every tree is read back by its root name as saved, a read without a path reports the root names. *)
 From Coq Require Import Permutation.
 From Emd Require Import Base.Prelude Model.H5 Model.Emd Model.Reader Generated.Tables
-     Proofs.PTree Proofs.P05 Proofs.P08 Proofs.PRead.
+     Proofs.PTree Proofs.P05 Proofs.P08 Proofs.PRead Proofs.PUnion.
 
 Definition tree_links (ts : list rnode) : list (string * obj) := map (fun t => (rname t, enc t)) ts.
 Definition forest_file (c : cfg) (ts : list rnode) : obj := G (header c) (tree_links ts).
@@ -213,4 +213,191 @@ Proof.
   - cbn [app]. constructor; assumption.
   - exact Hokr.
   - cbn [app]. exact Hnd.
+Qed.
+
+(* ---------- list items that are rooted nodes (direct children of one root): stored alone under a copy of their root *)
+Lemma md_links_eq (l : list (string * Z)) : olinks (bundle l) = map (fun kt => (fst kt, md_group (snd kt))) l.
+Proof. reflexivity. Qed.
+
+Lemma ao_md_fold (existing : list string) : forall S P : list (string * Z),
+  NoDup (keys (S ++ P)) -> (forall k, In k (keys S) -> In k existing) ->
+  fold_left (fun acc kt => do b0 <- acc;
+               if mem (fst kt) existing
+               then do b1 <- del_link (fst kt) b0; add_link (fst kt) (md_group (snd kt)) b1
+               else add_link (fst kt) (md_group (snd kt)) b0) S (Ok (bundle (S ++ P)))
+  = Ok (bundle (P ++ S)).
+Proof.
+  induction S as [|[k t] r IH]; intros P Hnd Hex; [cbn; rewrite app_nil_r; reflexivity|].
+  cbn [fold_left bind fst snd]. assert (mem k existing = true) as -> by (apply mem_In; apply Hex; left; reflexivity).
+  cbn [keys map fst app] in Hnd. apply NoDup_cons_iff in Hnd. destruct Hnd as (Hk & Hnd).
+  unfold del_link, bundle at 1. cbn [app map fst snd]. unfold has. cbn [get]. rewrite String.eqb_refl. cbn [del]. rewrite String.eqb_refl. cbn [bind].
+  unfold add_link.
+  assert (has (map (fun kt : string * Z => (fst kt, md_group (snd kt))) (r ++ P)) k = false) as ->.
+  { apply has_false_iff. unfold keys. rewrite map_map. cbn [fst]. exact Hk. }
+  assert (map (fun kt : string * Z => (fst kt, md_group (snd kt))) (r ++ P) ++ [(k, md_group t)] = map (fun kt => (fst kt, md_group (snd kt))) (r ++ (P ++ [(k, t)]))) as ->.
+  { rewrite !map_app. cbn [map fst snd]. rewrite <- app_assoc. reflexivity. }
+  change (G [("emd_group_type", AStr "metadatabundle")] (map (fun kt : string * Z => (fst kt, md_group (snd kt))) (r ++ P ++ [(k, t)]))) with (bundle (r ++ (P ++ [(k, t)]))).
+  rewrite IH.
+  - rewrite <- app_assoc. reflexivity.
+  - unfold keys in *. rewrite !map_app in *. cbn [map fst]. rewrite app_assoc. apply NoDup_app_intro; [exact Hnd|repeat constructor; intros []|].
+    intros x Hx [<-|[]]. exact (Hk Hx).
+  - intros k0 Hk0. apply Hex. right. exact Hk0.
+Qed.
+
+Lemma ao_root_md_same copy : rkids copy = [] -> NoDup (keys (rmds copy)) -> forall extra,
+  (forall kv, In kv extra -> fst kv <> "metadatabundle") ->
+  append_root_metadata true (rmds copy) (G (node_tags copy) (shallow_links copy ++ extra)) = Ok (G (node_tags copy) (shallow_links copy ++ extra)).
+Proof.
+  intros Hk Hnd extra Hex. unfold append_root_metadata. destruct (rmds copy) as [|m0 mr] eqn:Em; [reflexivity|]. rewrite <- Em in *.
+  unfold shallow_links. rewrite Em. rewrite <- Em. cbn [app olinks]. unfold has. rewrite get_first. cbn [bind].
+  unfold in_child. cbn [update_at]. rewrite get_first. cbn [update_at].
+  rewrite md_links_eq. rewrite (Proofs.PUnion.bundle_existing (rmds copy)).
+  pose proof (ao_md_fold (keys (rmds copy)) (rmds copy) []) as Hf. rewrite app_nil_r in Hf. cbn [app] in Hf.
+  rewrite Hf; [|exact Hnd|auto]. cbn [bind set]. rewrite String.eqb_refl. reflexivity.
+Qed.
+
+Lemma node_shallow_enc' data : node_shallow data = enc (with_kids data []).
+Proof. destruct data as [c s t r m ks]. rewrite enc_eq. cbn [with_kids rkids enc_kids map]. rewrite app_nil_r. reflexivity. Qed.
+
+(* one rooted item: the node alone is added under the copy of its root *)
+Lemma rooted_item_step c c0 r x data kids :
+  rcls r = CRoot -> rname r <> "" -> no_slash (rname r) = true -> NoDup (keys (rmds r)) ->
+  rwalk r [x] = Some data -> rname data = x ->
+  ~ In x (map rname kids) -> (rmds r <> [] -> x <> "metadatabundle") ->
+  (forall k, In k kids -> rname k <> "metadatabundle") ->
+  let T := RN CRoot (rname r) 0%Z 0 (rmds r) kids in
+  write_node c (H5 (forest_file c0 [T])) r [x] (WA "ao" (Some false) (Some (rname r)))
+  = (Ok tt, H5 (forest_file c0 [RN CRoot (rname r) 0%Z 0 (rmds r) (kids ++ [with_kids data []])])).
+Proof.
+  intros Hc Hne Hns Hnd Hw Hdn Hx Hxb Hkb T.
+  unfold write_node. cbn [mode emdpath tree slot_exists].
+  assert (run_prelude prelude_order "ao" (Some (rname r)) true = Ok "ao") as -> by (vm_compute; reflexivity).
+  change (mem "ao" overwritemode) with false. change (mem "ao" writemode) with false. cbn [slot_exists negb andb orb]. rewrite andb_false_r. cbn [orb].
+  assert (is_emd_file (forest_file c0 [T]) = true) as -> by (apply forest_is_emd; [discriminate|repeat constructor]).
+  unfold append_existing. rewrite Hw. cbn [emdpath tree]. change (mem "ao" appendovermode) with true.
+  assert (rootgroups (forest_file c0 [T]) = [rname r]) as -> by (rewrite forest_file_one; apply (rootgroups_whole c0 T); reflexivity).
+  cbn [mem]. rewrite String.eqb_refl.
+  assert ((match rname r with "" => true | String _ _ => false end) = false) as -> by (destruct (rname r); [congruence|reflexivity]).
+  assert (parse_emdpath (rname r) = (rname r, "")) as ->.
+  { unfold parse_emdpath. assert (match rname r with String c1 rest => if Ascii.eqb c1 "/"%char then rest else rname r | EmptyString => rname r end = rname r) as ->.
+    { destruct (rname r) as [|c1 r1] eqn:E; [reflexivity|]. cbn [no_slash] in Hns. apply andb_true_iff in Hns. destruct Hns as (Hc1 & _). apply negb_true_iff in Hc1. rewrite Hc1. reflexivity. }
+    rewrite (split_slash_no_slash _ Hns). reflexivity. }
+  assert (get (olinks (forest_file c0 [T])) (rname r) = Some (enc T)) as Hg by (unfold forest_file, tree_links; cbn [olinks map]; apply get_first).
+  unfold emd_target. rewrite Hg. unfold validate_treepath. change (split_slash "") with [""]. cbn [remove_first_empty String.eqb validate_names app bind].
+  (* root metadata: replaced entry by entry, ending where it started *)
+  assert (in_child (rname r) (append_root_metadata true (rmds r)) (forest_file c0 [T]) = Ok (forest_file c0 [T])) as ->.
+  { unfold in_child, forest_file, tree_links. cbn [update_at map]. rewrite get_first. cbn [update_at].
+    rewrite (enc_eq T). change (rkids T) with kids.
+    pose proof (ao_root_md_same (RN CRoot (rname r) 0%Z 0 (rmds r) []) eq_refl Hnd (enc_kids kids)) as Hmd.
+    cbn [rmds] in Hmd. change (node_tags (RN CRoot (rname r) 0%Z 0 (rmds r) [])) with (node_tags T) in Hmd.
+    change (shallow_links (RN CRoot (rname r) 0%Z 0 (rmds r) [])) with (shallow_links T) in Hmd.
+    rewrite Hmd; [cbn [bind set]; rewrite String.eqb_refl; reflexivity|].
+    intros kv Hkv. unfold enc_kids in Hkv. apply in_map_iff in Hkv. destruct Hkv as (k & <- & Hk). cbn [fst]. apply Hkb. exact Hk. }
+  cbn [bind tl]. rewrite Hg.
+  (* the item is one node beyond the file: written alone under the root copy *)
+  assert (~ In x (keys (olinks (enc T)))) as Hxl.
+  { rewrite enc_links. intros H. apply in_app_or in H. destruct H as [H|H]; [|exact (Hx H)].
+    unfold shallow_links in H. cbn [rmds rcls own T] in H. rewrite app_nil_r in H. destruct (rmds r) eqn:E; [destruct H|]. destruct H as [H|[]]. apply Hxb; [discriminate|symmetry; exact H]. }
+  change (mem "ao" writemode) with false. cbn [orb].
+  assert (get (olinks (enc T)) x = None) as HgN by (apply get_none_notin; exact Hxl).
+  rewrite (enc_eq T) at 1. cbv beta iota. rewrite (enc_links' T) in HgN. rewrite HgN.
+  cbn [path_eqb]. unfold forest_file, tree_links. cbn [map update_at]. rewrite get_first. cbn [update_at].
+  unfold write_single_node, add_link. rewrite (enc_eq T) at 1. rewrite Hdn.
+  assert (has (shallow_links T ++ enc_kids (rkids T)) x = false) as -> by (apply has_false_iff; rewrite <- (enc_links' T); exact Hxl).
+  cbn [bind set]. rewrite String.eqb_refl. f_equal. f_equal. f_equal. f_equal.
+  rewrite (enc_eq (RN CRoot (rname r) 0%Z 0 (rmds r) (kids ++ [with_kids data []]))). cbn [rkids]. unfold enc_kids. rewrite map_app. cbn [map].
+  rewrite app_assoc. f_equal. f_equal. rewrite <- node_shallow_enc'. assert (rname (with_kids data []) = x) as -> by (destruct data; exact Hdn). reflexivity.
+Qed.
+
+Definition rooted_list (i : nat) (xs : list string) : list litem := map (fun x => LTop i [x]) xs.
+
+Lemma rooted_list_given tops i xs : flat_map (fun it => match it with LTop i0 [] => if is_root_top tops i0 then [nth i0 tops dummy] else [] | _ => [] end) (rooted_list i xs) = [].
+Proof. induction xs as [|x q IH]; [reflexivity|]. cbn [rooted_list map flat_map app]. exact IH. Qed.
+Lemma rooted_list_unrooted tops i xs : flat_map (fun it => match it with LTop i0 [] => if is_root_top tops i0 then [] else [nth i0 tops dummy] | _ => [] end) (rooted_list i xs) = [].
+Proof. induction xs as [|x q IH]; [reflexivity|]. cbn [rooted_list map flat_map app]. exact IH. Qed.
+Lemma rooted_list_unrooted_idx tops i xs : flat_map (fun it => match it with LTop i0 [] => if is_root_top tops i0 then [] else [i0] | _ => [] end) (rooted_list i xs) = [].
+Proof. induction xs as [|x q IH]; [reflexivity|]. cbn [rooted_list map flat_map app]. exact IH. Qed.
+Lemma rooted_list_items i xs : flat_map (fun it => match it with LTop i0 (x :: q) => [(i0, x :: q)] | _ => [] end) (rooted_list i xs) = map (fun x => (i, [x])) xs.
+Proof. induction xs as [|x q IH]; [reflexivity|]. cbn [rooted_list map flat_map app]. fold (rooted_list i q). rewrite IH. reflexivity. Qed.
+Lemma rooted_list_no_other i xs : existsb (fun it => match it with LTop _ _ => false | _ => true end) (rooted_list i xs) = false.
+Proof. induction xs as [|x q IH]; [reflexivity|]. cbn [rooted_list map existsb orb]. exact IH. Qed.
+Lemma rooted_list_others i xs used : others (rooted_list i xs) used 0 0 = ([], []).
+Proof. induction xs as [|x q IH]; [reflexivity|]. cbn [rooted_list map others]. exact IH. Qed.
+Lemma existsb_false {A} (f : A -> bool) l : (forall a, In a l -> f a = false) -> existsb f l = false.
+Proof. induction l as [|x r IH]; intros H; [reflexivity|]. cbn [existsb]. rewrite (H x (or_introl eq_refl)). apply IH. intros a Ha. apply H. right. exact Ha. Qed.
+Lemma same_idx_no_conflict (tops : list rnode) i (l : list string) :
+  existsb (fun a => existsb (fun b => negb (Nat.eqb a b) && String.eqb (rname (nth a tops dummy)) (rname (nth b tops dummy))) (map fst (map (fun x => (i, [x])) l)))
+          (map fst (map (fun x : string => (i, [x])) l)) = false.
+Proof.
+  assert (forall a, In a (map fst (map (fun x : string => (i, [x])) l)) -> a = i) as Hall.
+  { intros a Ha. rewrite map_map in Ha. apply in_map_iff in Ha. destruct Ha as (x & <- & _). reflexivity. }
+  apply existsb_false. intros a Ha. apply existsb_false. intros b Hb. rewrite (Hall a Ha), (Hall b Hb), Nat.eqb_refl. reflexivity.
+Qed.
+
+Lemma root_copies_one (tops : list rnode) i xs : xs <> [] ->
+  fold_left (fun acc (it : nat * path) =>
+               if mem (rname (nth (fst it) tops dummy)) (map rname acc) then acc
+               else acc ++ [RN CRoot (rname (nth (fst it) tops dummy)) 0%Z 0 (rmds (nth (fst it) tops dummy)) []])
+            (map (fun x : string => (i, [x])) xs) []
+  = [RN CRoot (rname (nth i tops dummy)) 0%Z 0 (rmds (nth i tops dummy)) []].
+Proof.
+  intros Hne. destruct xs as [|x q]; [congruence|]. clear Hne. cbn [map fold_left fst mem app].
+  induction q as [|y w IH]; [reflexivity|]. cbn [map fold_left fst rname mem]. rewrite String.eqb_refl. exact IH.
+Qed.
+
+(* the items one after the other *)
+Lemma rooted_items_sequence c r : rcls r = CRoot -> rname r <> "" -> no_slash (rname r) = true -> NoDup (keys (rmds r)) ->
+  forall xs kids,
+  NoDup (map rname kids ++ xs) ->
+  (forall x, In x xs -> exists data, rwalk r [x] = Some data /\ rname data = x) ->
+  (forall k, In k kids -> rname k <> "metadatabundle") -> ~ In "metadatabundle" xs ->
+  sequence c (H5 (forest_file c [RN CRoot (rname r) 0%Z 0 (rmds r) kids]))
+           (map (fun x => (r, [x], WA "ao" (Some false) (Some (rname r)))) xs)
+  = (Ok tt, H5 (forest_file c [RN CRoot (rname r) 0%Z 0 (rmds r)
+                                 (kids ++ map (fun x => match rwalk r [x] with Some d => with_kids d [] | None => dummy end) xs)])).
+Proof.
+  intros Hc Hne Hns Hndm. induction xs as [|x q IH]; intros kids Hnd Hdata Hkb Hb2; [cbn; rewrite app_nil_r; reflexivity|].
+  destruct (Hdata x (or_introl eq_refl)) as (data & Hw & Hdn). cbn [map].
+  assert (~ In x (map rname kids)) as Hx.
+  { apply NoDup_app_inv in Hnd. destruct Hnd as (_ & _ & Hdis). intros H. apply (Hdis _ H). left. reflexivity. }
+  rewrite (sequence_ok_cons c _ _ _ (H5 (forest_file c [RN CRoot (rname r) 0%Z 0 (rmds r) (kids ++ [with_kids data []])]))).
+  - rewrite Hw. replace (kids ++ with_kids data [] :: map (fun x0 => match rwalk r [x0] with Some d => with_kids d [] | None => dummy end) q)
+      with ((kids ++ [with_kids data []]) ++ map (fun x0 => match rwalk r [x0] with Some d => with_kids d [] | None => dummy end) q) by (rewrite <- app_assoc; reflexivity).
+    apply IH.
+    + rewrite map_app. cbn [map]. assert (rname (with_kids data []) = x) as -> by (destruct data; exact Hdn).
+      rewrite <- app_assoc. exact Hnd.
+    + intros y Hy. apply Hdata. right. exact Hy.
+    + intros k Hk. apply in_app_or in Hk. destruct Hk as [Hk|[<-|[]]]; [apply Hkb; exact Hk|].
+      assert (rname (with_kids data []) = x) as -> by (destruct data; exact Hdn). intros E. apply Hb2. left. exact E.
+    + intros H. apply Hb2. right. exact H.
+  - apply rooted_item_step; try assumption. intros _ E. apply Hb2. left. exact E.
+Qed.
+
+Theorem list_of_rooted_items c tops i xs md tr :
+  let r := nth i tops dummy in
+  rcls r = CRoot -> rname r <> "" -> no_slash (rname r) = true -> NoDup (keys (rmds r)) ->
+  xs <> [] -> NoDup xs -> ~ In "metadatabundle" xs ->
+  (forall x, In x xs -> exists data, rwalk r [x] = Some data /\ rname data = x) ->
+  In md allmodes ->
+  write_list c Absent tops (rooted_list i xs) (WA md tr None)
+  = (Ok tt, H5 (forest_file c [RN CRoot (rname r) 0%Z 0 (rmds r)
+                                 (map (fun x => match rwalk r [x] with Some d => with_kids d [] | None => dummy end) xs)])).
+Proof.
+  intros r Hc Hne Hns Hndm Hxs Hnd Hb Hdata Hmd. unfold write_list. cbn [mode emdpath slot_exists].
+  assert (run_prelude prelude_order md None false = Ok md) as ->.
+  { unfold allmodes in Hmd. cbn [app] in Hmd. repeat (destruct Hmd as [<-|Hmd]; [vm_compute; reflexivity|]). destruct Hmd. }
+  rewrite rooted_list_given, rooted_list_unrooted, rooted_list_unrooted_idx, rooted_list_items, rooted_list_no_other.
+  cbn [nodup_nat negb orb]. rewrite same_idx_no_conflict. cbn [map].
+  rewrite rooted_list_others. cbv beta iota zeta.
+  match goal with |- context [fold_left ?F (map (fun x : string => (i, [x])) xs) []] =>
+    replace (fold_left F (map (fun x : string => (i, [x])) xs) []) with [RN CRoot (rname r) 0%Z 0 (rmds r) []]
+      by (symmetry; apply (root_copies_one tops i xs Hxs)) end.
+  cbn [app map].
+  assert (exists m1, (if mem md writemode then ("a", Absent) else if mem md overwritemode then ("a", Absent) else (md, Absent)) = (m1, Absent) /\ In m1 (appendmode ++ appendovermode)) as (m1 & Em1 & Hm1).
+  { unfold allmodes in Hmd. cbn [app] in Hmd. repeat (destruct Hmd as [<-|Hmd]; [eexists; split; [vm_compute; reflexivity|vm_compute; tauto]|]). destruct Hmd. }
+  rewrite Em1.
+  rewrite (sequence_ok_cons c _ _ _ (H5 (forest_file c [RN CRoot (rname r) 0%Z 0 (rmds r) []]))).
+  - rewrite map_map. cbn [fst snd].
+    pose proof (rooted_items_sequence c r Hc Hne Hns Hndm xs [] Hnd Hdata (fun k Hk => match Hk with end) Hb) as Hseq. cbn [app] in Hseq. exact Hseq.
+  - apply first_tree_fresh; [exact Hm1|reflexivity|]. apply ok_tree_inv. cbn [rkids map]. repeat split; [constructor|intros k []|constructor].
 Qed.
